@@ -146,17 +146,38 @@ CHECK = {
             "exhaustively, every pair exhaustively when the pair count is small (all pairs in the thorough tier up to 40000 per grid), "
             "sampled triples; random sequences of up to 50 translations on grids up to 8 cells/axis with offsets up to +-2n, several "
             "empty values, interleaved marker writes; non-trivial = some translation is non-zero and smaller than the grid on every axis",
-    "trusted": ["hand-written model coq/WrapGridModel.v tied by differential execution (this run)",
+    "trusted": ["translate/tr_C15_wrapgrid.py (clang JSON AST of WrappableGrid<int,2|3> -> program of coq/WrapGridImp.v) and the "
+                "interpreter of coq/WrapGridImp.v as the meaning of the C++ fragment (size_t mod 2^64, int overflow = None, C++ %, "
+                "for-loop condition re-checked on every pass); Eigen vector dot product read as the size_t sum of products, "
+                "Zero()/Ones()/operator- read componentwise; the virtual call computeCellLinearIndex_ resolved to WrappableGrid's override",
                 "extraction (ExtrOcamlBasic), ocaml/numf.ml, ocaml/drv_C15.ml", "harness/C15.cpp, python oracle in checks/C15.py"],
-    "assumptions": ["std::vector behaves as a list; grid sizes below 2^31 so that static_cast<int>(size) is exact"],
+    "assumptions": ["std::vector behaves as a list of length nx*ny*nz < 2^64 (buffer_.resize is not translated); grid sizes below 2^31 "
+                    "so that static_cast<int>(size) is exact; the object is a WrappableGrid (not a further-derived class)"],
     "manifest": {
-        "text": "Refinement proved in Coq for every grid size and every sequence of translations and writes: each read of the concrete "
-                "grid (offset wrap + buffer, loops transcribed as the lists of cells they blank) equals the read of the simplest spec "
-                "(a window function sliding over logical indexes: surviving cells keep their value, entering cells read the empty value), "
-                "and the stored offset equals the accumulated offset modulo the size including the size_t/int wrap-around. The model "
-                "is tied to the code by running the extracted model against WrappableGrid<int,2|3> on bounded-exhaustive and random "
-                "sequences, with an independent unbounded-map oracle.",
-        "note": "Trusted: Coq kernel (theorems are axiom-free), hand model tied by differential run, extraction, harness, oracle.",
-        "technique": "Coq proof (refinement to a sliding-window spec by induction over op sequences) + extracted-model correspondence",
+        "text": "SYNTACTIC TIE: translate/tr_C15_wrapgrid.py regenerates on every run, from the clang JSON AST of "
+                "WrappableGrid.hpp / Grid.hpp (instantiations WrappableGrid<int,2> and <int,3>), the bodies of translate (the DIM==2 "
+                "branch and the 3D branch), computeCellLinearIndex_ (wrapCellIndexes_ inlined), operator() (const and non-const), the "
+                "constructor initialisers and Grid::init as programs of a small deeply-embedded imperative language (coq/gen/"
+                "SrcWrapGrid.v; every arithmetic node keeps its C++ type: size_t reduced mod 2^64, int with overflow = undefined, "
+                "C++ %, int->size_t conversions explicit; counted for-loops whose condition is re-checked on every pass). "
+                "coq/SrcTieC15.v proves by loop invariants, for ALL grid sizes (each axis < 2^31, nx*ny*nz < 2^64), all int offsets "
+                "and all states, that running the generated translate program yields exactly the state of the model's translate "
+                "step (buffer contents and index offsets) in 2D and in 3D (C15_source_tie_translate_2d/_3d), that the generated "
+                "linear-index expression is the model's lin without any size_t wrap (C15_source_tie_linear_index), that "
+                "operator() reads/writes buffer_ at that index (= g_read/g_write) and that the constructor establishes "
+                "minusOne = n-1, coefficients (1,nx,ny*nx), offsets 0. Hence the refinement theorems apply to the code as written: "
+                "for every grid size and every sequence of translations and writes each read of the concrete grid equals the read "
+                "of a window sliding over logical indexes (surviving cells keep their value, entering cells read the empty value), "
+                "and the stored offset equals the accumulated offset modulo the size including the size_t/int wrap-around. "
+                "In addition the extracted model is run against WrappableGrid<int,2|3> on bounded-exhaustive and random sequences, "
+                "with an independent unbounded-map oracle.",
+        "note": "Trusted: Coq kernel (theorems are axiom-free); the translator and the interpreter of WrapGridImp.v as the reading of "
+                "the C++ fragment (usual arithmetic conversions as clang inserted them, Eigen dot/Zero/Ones/operator- componentwise, "
+                "virtual computeCellLinearIndex_ = WrappableGrid's); buffer_.resize not translated (buffer length is a hypothesis); "
+                "extraction, harness, oracle for the differential run. A source edit that changes the AST shape of the loops "
+                "without changing the meaning can make the tie lemmas fail to re-prove (reported as a proof failure, never as a wrong pass).",
+        "technique": "Coq proof: source programs regenerated from the clang AST into a deep embedding, proved by loop invariants to "
+                     "compute the model's steps for all sizes; refinement of the model to a sliding-window spec by induction over op "
+                     "sequences; + extracted-model correspondence run",
     },
 }
